@@ -31,12 +31,12 @@ CfgOf(c) == [role |-> c.role, hbMin |-> c.hbMin, hbMax |-> c.hbMax, hbCfg |-> c.
 
 \* observed digest -> Session!Msg
 AsMsg(o) == [ty |-> o.ty, seq |-> o.seq, hb |-> o.hb, enc |-> o.enc, refSeq |-> o.refSeq, refTag |-> o.refTag,
-             trid |-> o.trid, b |-> o.b, e |-> o.e, dupOf |-> o.dupOf]
+             trid |-> o.trid, b |-> o.b, e |-> o.e, dupOf |-> o.dupOf, user |-> o.user, pass |-> o.pass]
 
 \* what the properties fix about a message (R2): everything else is not compared
 MatchMsg(e, g) ==
   /\ e.ty = g.ty /\ e.seq = g.seq /\ e.dupOf = g.dupOf
-  /\ (e.ty = "A" => e.hb = g.hb /\ e.enc = g.enc)
+  /\ (e.ty = "A" => e.hb = g.hb /\ e.enc = g.enc /\ e.user = g.user /\ e.pass = g.pass)
   /\ (e.ty = "3" => (e.refSeq >= 0 => g.refSeq = e.refSeq) /\ (e.refTag >= 0 => g.refTag = e.refTag))
   /\ (e.ty = "0" => e.trid = g.trid)
   /\ (e.ty = "2" => e.b = g.b /\ e.e = g.e)
@@ -44,7 +44,7 @@ MatchMsg(e, g) ==
 MatchSeq(exp, got) == Len(exp) = Len(got) /\ \A j \in 1..Len(exp) : MatchMsg(exp[j], got[j])
 
 Brief(m) == [ty |-> m.ty, seq |-> m.seq, refSeq |-> m.refSeq, refTag |-> m.refTag, hb |-> m.hb,
-             b |-> m.b, e |-> m.e, dupOf |-> m.dupOf, trid |-> m.trid]
+             b |-> m.b, e |-> m.e, dupOf |-> m.dupOf, trid |-> m.trid, user |-> m.user, pass |-> m.pass]
 BriefSeq(q) == [j \in 1..Len(q) |-> Brief(q[j])]
 
 WatchedEvents == {"logon", "logout", "disconnect"}
